@@ -63,7 +63,7 @@ Fixpoint first_bad (P : params) (tbl : list header) (prev : list Z)
           if negb (adopt_ok && reorg_ok && reorg_conditions_b P now before after msg) then 1
           else if legal (classify P before after msg) then 0
           else if reorg_truncated_atb P now before after msg then 27 else 1
-        | OHeadersF _ _ _ _ => 0
+        | OHeadersF _ _ _ _ | OHeadersR _ _ _ _ => 0
         | _ => if hashes_eqb before after then 0 else 1    (* nothing but a headers message changes the chain *)
         end
       | _, _ => 1
